@@ -661,19 +661,94 @@ theorem print_line_rejected (Γ : Env κ) (row : Nat) (items : Exprs κ) (i : Na
 
 end Sound
 
-/-! ## The known finding C12-a: `MOD` on a huge operand -/
+/-! ## `MOD` on a huge operand (was finding C12-a, repaired by /repo ec526c5) -/
 
 /-- The full statement (no exclusion of `MOD`). -/
 def OperatorStepFull : Prop :=
   ∀ (op : Op) (a b : Val), a.InRange → b.InRange → KindsOk op a.tag b.tag →
     vmBin binType op a b ≠ .err .typeMismatch
 
-/-- It fails on the unchanged code: `1 MOD 1E+10` is accepted (INTEGER MOD DOUBLE : INTEGER) and
-`Variant::modulo` answers Type mismatch where QBasic says Overflow. -/
-theorem operatorStepFull_fails : ¬ OperatorStepFull := by
-  intro h
-  exact h .modulo (.int 1) (.dbl 10000000000) (by decide +kernel) (by decide +kernel)
-    (Or.inl ⟨by decide, by decide⟩) (by decide +kernel)
+theorem fitInt_numeric (n : Int) (w : Val) (h : fitInt n = .ok w) : w.tag ≠ .str := by
+  unfold fitInt at h
+  split at h
+  · injection h with h; subst h; simp [Val.tag]
+  · split at h
+    · injection h with h; subst h; simp [Val.tag]
+    · unfold mkDbl at h
+      split at h
+      · injection h with h; subst h; simp [Val.tag]
+      · cases h
+
+theorem roundV_numeric (a w : Val) (ha : a.tag ≠ .str) :
+    roundV a ≠ .err .typeMismatch ∧ (roundV a = .ok w → w.tag ≠ .str) := by
+  cases a with
+  | int n => exact ⟨by simp [roundV], fun h => by simp [roundV] at h; subst h; simp [Val.tag]⟩
+  | long n => exact ⟨by simp [roundV], fun h => by simp [roundV] at h; subst h; simp [Val.tag]⟩
+  | sgl q =>
+    simp only [roundV]
+    split
+    · refine ⟨?_, fun h => fitInt_numeric _ _ h⟩
+      unfold fitInt mkDbl
+      split <;> (try split) <;> (try split) <;> simp
+    · exact ⟨by simp, fun h => by cases h⟩
+  | dbl q =>
+    simp only [roundV]
+    split
+    · refine ⟨?_, fun h => fitInt_numeric _ _ h⟩
+      unfold fitInt mkDbl
+      split <;> (try split) <;> (try split) <;> simp
+    · exact ⟨by simp, fun h => by cases h⟩
+  | str s => exact absurd rfl ha
+
+/-- after the repair `MOD` never answers Type mismatch on numeric operands -/
+theorem modulo_no_mismatch (a b : Val) (ha : a.tag ≠ .str) (hb : b.tag ≠ .str) :
+    modulo a b ≠ .err .typeMismatch := by
+  unfold modulo
+  apply bind_ne (roundV_numeric a a ha).1
+  intro ra hra
+  apply bind_ne (roundV_numeric b b hb).1
+  intro rb hrb
+  have hrbn := (roundV_numeric b rb hb).2 hrb
+  cases rb with
+  | str s => exact absurd rfl hrbn
+  | int n =>
+    simp only [isApproxZero]
+    split
+    · rename_i heq; simp at heq
+    · simp
+    · first | (split <;> simp) | simp
+  | long n =>
+    simp only [isApproxZero]
+    split
+    · rename_i heq; simp at heq
+    · simp
+    · first | (split <;> simp) | simp
+  | sgl q =>
+    simp only [isApproxZero]
+    split
+    · rename_i heq; simp at heq
+    · simp
+    · first | (split <;> simp) | simp
+  | dbl q =>
+    simp only [isApproxZero]
+    split
+    · rename_i heq; simp at heq
+    · simp
+    · first | (split <;> simp) | simp
+
+/-- **The operator step holds for every operator**, `MOD` included, on the repaired code. -/
+theorem operatorStepFull_holds : OperatorStepFull := by
+  intro op a b ha hb hk
+  by_cases hop : op = .modulo
+  · subst hop
+    simp only [vmBin]
+    rcases hk with ⟨h1, h2⟩ | ⟨_, _, h3⟩
+    · exact modulo_no_mismatch a b h1 h2
+    · rcases h3 with h3 | h3 <;> simp [isRel] at h3
+  · exact vmBin_no_mismatch op a b hop ha hb hk
+
+/-- the former witness of C12-a now raises Overflow -/
+example : vmBin binType .modulo (.int 1) (.dbl 10000000000) = .err .overflow := by decide +kernel
 
 example : binType .modulo .int .dbl = some .int := by decide
 
